@@ -161,7 +161,7 @@ func translateLoopFunc(fn *ast.FuncDecl) (string, []string) {
 			}
 		}
 	}
-	body := fn.Body.List
+	body := inlineHoisted(fn.Body.List)
 	if len(body) != 3 {
 		c.fail("%s: expected 3 statements, found %d", fn.Name.Name, len(body))
 		return "", c.errs
@@ -237,6 +237,110 @@ func translateLoopFunc(fn *ast.FuncDecl) (string, []string) {
 	fmt.Fprintf(&sb, "      else (%s, false)\n\n", acc)
 	fmt.Fprintf(&sb, "def %s %s : Nat × Bool := %s.loop 64 %s %s\n\n", name, strings.Join(params, " "), name, args, init)
 	return sb.String(), c.errs
+}
+
+// inlineHoisted: leading `name := expr` statements whose expression mentions only variables that
+// are never assigned in the function (a loop-invariant conversion hoisted out of the loop) are
+// substituted into the statements that follow, so that the hoisted and the unhoisted spelling
+// translate to the same definitions.
+func inlineHoisted(body []ast.Stmt) []ast.Stmt {
+	assigned := map[string]bool{}
+	for _, st := range body {
+		ast.Inspect(st, func(n ast.Node) bool {
+			switch x := n.(type) {
+			case *ast.AssignStmt:
+				if x.Tok != token.DEFINE {
+					for _, l := range x.Lhs {
+						if id, ok := l.(*ast.Ident); ok {
+							assigned[id.Name] = true
+						}
+					}
+				}
+			case *ast.IncDecStmt:
+				if id, ok := x.X.(*ast.Ident); ok {
+					assigned[id.Name] = true
+				}
+			}
+			return true
+		})
+	}
+	for len(body) > 3 {
+		as, ok := body[0].(*ast.AssignStmt)
+		if !ok || as.Tok != token.DEFINE || len(as.Lhs) != 1 || len(as.Rhs) != 1 {
+			break
+		}
+		id, ok := as.Lhs[0].(*ast.Ident)
+		if !ok || assigned[id.Name] {
+			break
+		}
+		invariant := true
+		ast.Inspect(as.Rhs[0], func(n ast.Node) bool {
+			if x, ok := n.(*ast.Ident); ok && assigned[x.Name] {
+				invariant = false
+			}
+			return true
+		})
+		if !invariant {
+			break
+		}
+		var subst func(e ast.Expr) ast.Expr
+		subst = func(e ast.Expr) ast.Expr {
+			switch x := e.(type) {
+			case *ast.Ident:
+				if x.Name == id.Name {
+					return &ast.ParenExpr{X: as.Rhs[0]}
+				}
+				return x
+			case *ast.ParenExpr:
+				return &ast.ParenExpr{X: subst(x.X)}
+			case *ast.BinaryExpr:
+				return &ast.BinaryExpr{X: subst(x.X), Op: x.Op, Y: subst(x.Y)}
+			case *ast.UnaryExpr:
+				return &ast.UnaryExpr{Op: x.Op, X: subst(x.X)}
+			case *ast.CallExpr:
+				args := make([]ast.Expr, len(x.Args))
+				for i, a := range x.Args {
+					args[i] = subst(a)
+				}
+				return &ast.CallExpr{Fun: x.Fun, Args: args}
+			}
+			return e
+		}
+		var substStmt func(st ast.Stmt) ast.Stmt
+		substStmt = func(st ast.Stmt) ast.Stmt {
+			switch x := st.(type) {
+			case *ast.AssignStmt:
+				rhs := make([]ast.Expr, len(x.Rhs))
+				for i, r := range x.Rhs {
+					rhs[i] = subst(r)
+				}
+				return &ast.AssignStmt{Lhs: x.Lhs, Tok: x.Tok, Rhs: rhs}
+			case *ast.ForStmt:
+				nb := &ast.BlockStmt{}
+				for _, b := range x.Body.List {
+					nb.List = append(nb.List, substStmt(b))
+				}
+				var cond ast.Expr
+				if x.Cond != nil {
+					cond = subst(x.Cond)
+				}
+				return &ast.ForStmt{Init: x.Init, Cond: cond, Post: x.Post, Body: nb}
+			case *ast.ReturnStmt:
+				res := make([]ast.Expr, len(x.Results))
+				for i, r := range x.Results {
+					res[i] = subst(r)
+				}
+				return &ast.ReturnStmt{Results: res}
+			}
+			return st
+		}
+		var rest []ast.Stmt
+		for _, st := range body[1:] {
+			rest = append(rest, substStmt(st))
+		}
+		body = rest
+	}
+	return body
 }
 
 func paramTypes(params []string) string {
